@@ -152,7 +152,8 @@ def random_scenario(rng, n_min=3, n_max=8, norm=None):
                 reg.append("stored" if role == "stored" else "none")
             nkw.append(rng.randint(0, len(args[-1])) if rng.random() < 0.3 else 0)
         s = {"N": N, "kind": kind, "args": args, "deps": deps, "reg": reg, "wof": wof, "side": side,
-             "nkw": nkw, "norm": rng.random() < 0.5 if norm is None else norm}
+             "nkw": nkw, "norm": rng.random() < 0.5 if norm is None else norm,
+             "scopes": [rng.choice([[], [], ["a"], ["b"], ["a", 1], ["a", "x"]]) for _ in range(N)]}
         if ok and wellformed(s) and any(r == "stored" for r in reg):
             return s
 
@@ -430,32 +431,36 @@ class Universe:
             f.__module__ = "vfcscen"
             return f
 
+        import contextlib
+
+        scopes = s.get("scopes") or [[]] * self.N
         for i in range(1, self.N + 1):
-            k, r = s["kind"][i - 1], s["reg"][i - 1]
-            if k == "lit":
-                node = self.plan.lit(T(i, 0, []))
-            elif r == "src":
-                st = TermStore(i)
-                self.store[i] = st
-                node = self.registry.source(self.plan, st)
-                if not s["wof"][i - 1]:
-                    self.clock += 1
-                    self.present[i] = True
-                    self.srcver[i] = 1
-                    self.value[i] = T(i, 1, [])
-                    self.rank[i] = self.clock
-            else:
-                a = [self.node[p] for p in s["args"][i - 1]]
-                nkw = (s.get("nkw") or [0] * self.N)[i - 1]
-                pos, kws = (a[: len(a) - nkw], a[len(a) - nkw:]) if nkw else (a, [])
-                node = self.plan.call(make_fn(i), *pos, **{f"k{j}": x for j, x in enumerate(kws)})
-                if r == "stored":
-                    st = TermStore(i)
-                    self.store[i] = st
-                    self.registry.add(node, st)
-            for p in s["deps"][i - 1]:
-                self.plan.add_dependency(self.node[p], node)
-            self.node[i] = node
+          with self.plan.scope(*scopes[i - 1]) if scopes[i - 1] else contextlib.nullcontext():
+              k, r = s["kind"][i - 1], s["reg"][i - 1]
+              if k == "lit":
+                  node = self.plan.lit(T(i, 0, []))
+              elif r == "src":
+                  st = TermStore(i)
+                  self.store[i] = st
+                  node = self.registry.source(self.plan, st)
+                  if not s["wof"][i - 1]:
+                      self.clock += 1
+                      self.present[i] = True
+                      self.srcver[i] = 1
+                      self.value[i] = T(i, 1, [])
+                      self.rank[i] = self.clock
+              else:
+                  a = [self.node[p] for p in s["args"][i - 1]]
+                  nkw = (s.get("nkw") or [0] * self.N)[i - 1]
+                  pos, kws = (a[: len(a) - nkw], a[len(a) - nkw:]) if nkw else (a, [])
+                  node = self.plan.call(make_fn(i), *pos, **{f"k{j}": x for j, x in enumerate(kws)})
+                  if r == "stored":
+                      st = TermStore(i)
+                      self.store[i] = st
+                      self.registry.add(node, st)
+              for p in s["deps"][i - 1]:
+                  self.plan.add_dependency(self.node[p], node)
+              self.node[i] = node
 
     # ---- history-level operations (not through uberjob) ----------------------------------
     def update_source(self, n):
